@@ -105,15 +105,15 @@ fn spec_decode(data: &[u8]) -> Option<SpecOut> {
         out.nodes += 1;
         if v.iter().all(|x| !*x) {
             out.filled += 1;
-            out.ranges.push((start, start + b.pow(h - depth + 1) - 1));
+            out.ranges.push((start, start.saturating_add(spow(b, h - depth + 1) - 1)));
             continue;
         }
         for (i, vi) in v.iter().enumerate() {
             if *vi {
                 if depth == h {
-                    out.ranges.push((start + i as u128, start + i as u128));
+                    out.ranges.push((start.saturating_add(i as u128), start.saturating_add(i as u128)));
                 } else {
-                    q.push_back((start + i as u128 * b.pow(h - depth), depth + 1));
+                    q.push_back((start.saturating_add((i as u128).saturating_mul(spow(b, h - depth))), depth + 1));
                 }
             }
         }
@@ -122,11 +122,15 @@ fn spec_decode(data: &[u8]) -> Option<SpecOut> {
     out.consumed = 1 + (used + 7) / 8;
     Some(out)
 }
+/// b^e, saturating (only reachable for heights the implementation does not support)
+fn spow(b: u128, e: u32) -> u128 {
+    b.checked_pow(e).unwrap_or(u128::MAX / 4)
+}
 fn spec_clip(rs: &[(u128, u128)], bias: u32, max: u32) -> Ranges {
     let mut out = vec![];
     for (a, b) in rs {
-        let lo = a + bias as u128;
-        let hi = (b + bias as u128).min(max as u128);
+        let lo = a.saturating_add(bias as u128);
+        let hi = b.saturating_add(bias as u128).min(max as u128);
         if lo <= hi {
             out.push((lo as u64, hi as u64));
         }
@@ -256,7 +260,8 @@ impl Ctx {
         self.dec_case(&bytes, 0, u32::MAX, "encoded");
         if rng.chance(1, 2) {
             let mut with_tail = bytes.clone();
-            with_tail.extend(rng.bytes(rng.range(1, 5) as usize));
+            let nt = rng.range(1, 5) as usize;
+            with_tail.extend(rng.bytes(nt));
             let (bias, max) = bias_max(rng, rs);
             self.dec_case(&with_tail, bias, max, "encoded_tail_bias_max");
         }
@@ -363,7 +368,7 @@ fn gen_set(rng: &mut Rng, limit_members: u64) -> (Ranges, &'static str) {
             for _ in 0..rng.range(1, 4) {
                 let bf = *rng.pick(&[2u64, 4, 8, 32]);
                 let e = rng.range(1, 32) as u32;
-                let p = (bf as u128).pow(e).min(1u128 << 32) as i128;
+                let p = (bf as u128).checked_pow(e).unwrap_or(1u128 << 32).min(1u128 << 32) as i128;
                 let v = (p + rng.range(-2, 1) as i128).clamp(0, u32::MAX as i128) as u64;
                 rs.push((v, v));
             }
@@ -425,7 +430,10 @@ fn mutate(rng: &mut Rng, bytes: &[u8]) -> Vec<u8> {
             let n = rng.below(v.len() as u64 + 1) as usize;
             v.truncate(n);
         }
-        1 => v.extend(rng.bytes(rng.range(1, 6) as usize)),
+        1 => {
+            let nt = rng.range(1, 6) as usize;
+            v.extend(rng.bytes(nt))
+        }
         2 if !v.is_empty() => {
             let i = rng.below(v.len() as u64) as usize;
             v[i] ^= 1 << rng.below(8);
@@ -451,7 +459,7 @@ fn mutate(rng: &mut Rng, bytes: &[u8]) -> Vec<u8> {
 }
 
 fn main() {
-    silence_panics();
+    if std::env::var("C14S_DEBUG").is_err() { silence_panics(); }
     let args: Vec<String> = std::env::args().collect();
     let thorough = tier_is_thorough(&args);
     let seed = seed_from_env();
@@ -565,7 +573,8 @@ fn main() {
     }
     for _ in 0..(if thorough { 3000 } else { 200 }) {
         let mut d = gen_bytes(&mut rng);
-        d.extend(rng.bytes(rng.below(2000) as usize));
+        let nt = rng.below(2000) as usize;
+        d.extend(rng.bytes(nt));
         let (bias, max) = bias_max(&mut rng, &vec![]);
         cx.dec_case(&d, bias, max, "arbitrary_long");
     }
